@@ -732,6 +732,9 @@ func TestWireReal(t *testing.T) {
 			}()
 			offered := make(chan []string, 4)
 			frames := make(chan []byte, 16)
+			push := make(chan []byte, 4)
+			defer close(push)
+			closedByPeer := make(chan struct{}, 4)
 			up := websocket.Upgrader{Subprotocols: []string{"rep.sp.nanomsg.org"}, CheckOrigin: func(*http.Request) bool { return true }}
 			nl, err := net.Listen("tcp", "127.0.0.1:0")
 			if err != nil {
@@ -745,9 +748,15 @@ func TestWireReal(t *testing.T) {
 					return
 				}
 				defer c.Close()
+				go func() {
+					for b := range push {
+						_ = c.WriteMessage(websocket.BinaryMessage, b)
+					}
+				}()
 				for {
 					mt, data, err := c.ReadMessage()
 					if err != nil {
+						closedByPeer <- struct{}{}
 						return
 					}
 					if mt == websocket.BinaryMessage {
@@ -762,6 +771,8 @@ func TestWireReal(t *testing.T) {
 			s, _ := xreq.NewSocket()
 			defer s.Close()
 			_ = s.SetOption(mangos.OptionSendDeadline, 3*time.Second)
+			const wsLimit = 64
+			_ = s.SetOption(mangos.OptionMaxRecvSize, wsLimit) // the dialing side has a receive limit too
 			if err := s.Dial("ws://" + nl.Addr().String() + "/sp"); err != nil {
 				panic(err)
 			}
@@ -788,6 +799,31 @@ func TestWireReal(t *testing.T) {
 					}
 				}
 			}
+			// the receive limit on the dialing side: a frame of exactly the limit is delivered, one byte more is not and
+			// the connection is dropped
+			_ = s.SetOption(mangos.OptionRecvDeadline, 6*time.Second)
+			exact := append([]byte{0x80, 0, 0, 9}, payload(wsLimit-4, 91)...)
+			push <- exact
+			if m, err := s.RecvMsg(); err != nil {
+				r.Emit("rrecv", "n", wsLimit, "r", err, "len", -1, "d", "", "want", digest(exact))
+			} else {
+				all := append(append([]byte{}, m.Header...), m.Body...)
+				r.Emit("rrecv", "n", wsLimit, "r", "ok", "len", len(all), "d", digest(all), "want", digest(exact))
+				m.Free()
+			}
+			push <- append([]byte{0x80, 0, 0, 10}, payload(wsLimit-3, 92)...)
+			dropped := false
+			select {
+			case <-closedByPeer:
+				dropped = true
+			case <-time.After(6 * time.Second):
+			}
+			_ = s.SetOption(mangos.OptionRecvDeadline, 300*time.Millisecond)
+			m, err := s.RecvMsg()
+			if err == nil {
+				m.Free()
+			}
+			r.Emit("oversize", "announced", wsLimit+1, "limit", wsLimit, "closed", dropped && err != nil)
 		}()
 		out.Add("wirereal-wsclient", rec.Ev{"kind": "ws", "ipc": false, "self": 48, "maxrx": 0, "stream": []int{}, "closes": false},
 			"ws client", sim.Result{Lines: r.Lines(), Status: status, Detail: detail})
